@@ -75,11 +75,11 @@ def arch_ctx(arch):
     if arch not in _state:
         import logging
         from miasm.analysis.machine import Machine
-        for n in ("asmblock", "cpuhelper", "x86_arch", "armarch", "mips32", "msp430"):
-            logging.getLogger(n).setLevel(logging.CRITICAL)
         import warnings
         warnings.simplefilter("ignore")
         m = Machine(arch)
+        for n in ("asmblock", "cpuhelper", "x86_arch", "armdis", "mips32dis", "msp430dis"):
+            logging.getLogger(n).setLevel(logging.CRITICAL)
         attrib = getattr(m.dis_engine, "attrib", None)
         _state[arch] = (m.mn, attrib, m.mn.alignment, m.mn.max_instruction_len)
         _state[arch, "fast"] = FastMn(m.mn)
@@ -339,7 +339,6 @@ def spec_strategy(arch):
     from hypothesis import strategies as st
     small = st.integers(0, 1 << 16)
 
-    has_labref = True
     line = st.one_of(
         st.tuples(st.just("plain"), small),
         st.tuples(st.just("plain"), small),
@@ -357,7 +356,7 @@ def spec_strategy(arch):
     chain = st.fixed_dictionaries({
         "blocks": st.lists(block, min_size=1, max_size=3 if arch == "msp430" else 4),
         "end": end,
-        "pin": st.one_of(st.none(), st.integers(0, 3), st.integers(0, 3)),
+        "pin": st.one_of(st.none(), st.integers(0, 3), st.integers(0, 3), st.integers(0, 3)),
     })
     return st.fixed_dictionaries({
         "arch": st.just(arch),
@@ -366,7 +365,7 @@ def spec_strategy(arch):
         "gaps": st.lists(st.sampled_from([0, 0, 1, 2, 5, 16, 40]), min_size=1, max_size=6),
         "big": st.integers(0, 5),
         "base": st.integers(0, 3),
-        "ivmode": st.sampled_from([0, 1, 1, 1, 2]),
+        "ivmode": st.sampled_from([0, 1, 1, 2, 2]),
         "hole": st.integers(0, 5),
         "ext": st.booleans(),
         "selfloop": st.sampled_from([False] * 5 + [True]),
@@ -751,7 +750,7 @@ class C32(Check):
         arch = ARCHS[shard % len(ARCHS)]
         arch_ctx(arch)
         self.vet_templates(arch, res)
-        n = {"x86_32": 110, "arml": 160, "mips32l": 160, "msp430": 160}[arch]
+        n = {"x86_32": 80, "arml": 90, "mips32l": 110, "msp430": 170}[arch]
         if tier == "thorough":
             n *= 12
         cnt = [0]
